@@ -1,3 +1,7 @@
 ---- MODULE MC_FileStore ----
 EXTENDS FileStore
+\* the operation counter only bounds the exploration: leaving it out of the
+\* state VIEW and lifting MaxOps makes TLC visit EVERY reachable storage state,
+\* i.e. histories of every length (cfg MC_FileStore_unbounded)
+NoCounterView == <<cfg, disk, latest, latestC, noOwBroken>>
 ====
